@@ -1,5 +1,64 @@
+import Agd.Model.Normalize
 import Agd.Driver.Util
-/-! Line-protocol driver for the C08 model (stub: not built yet). -/
+/-!
+Line-protocol driver for the C08 model.
+
+```
+serve <legacy> <transport> <cfgMax> <idleMs> <draw> <slack>
+      <reqOpt 0|1> <reqSize> <reqDo> <reqOpts>
+      <tc> <q> <unc> <ans> <ns> <extra> <ns2> <extra2>
+      <respOpt 0|1> <size> <extRcode> <version> <do> <z> <opts>
+maxsize <isUdp> <edns> <cap>
+```
+Lists are comma separated, `_` is the empty list; options are `code:len`.
+Answer: `ka kn ke tc opt size ext ver do z opts len wire emitted`.
+-/
 namespace Agd.Driver.C08
-def main : IO Unit := Agd.Driver.loop (fun (s : Unit) _ => (s, "bad-op")) ()
+open Agd.Normalize Agd.Driver
+
+def parseList (s : String) : List Nat :=
+  if s == "_" then [] else (s.splitOn ",").map nat!
+
+def parseOpts (s : String) : List EOpt :=
+  if s == "_" then []
+  else (s.splitOn ",").map fun p =>
+    match p.splitOn ":" with
+    | [c, l] => { code := nat! c, len := nat! l }
+    | _ => { code := 0, len := 0 }
+
+def parseT : String → Option Transport
+  | "udp" => some .udp | "tcp" => some .tcp | "dot" => some .dot | "doh" => some .doh
+  | "doq" => some .doq | "dcu" => some .dcUdp | "dct" => some .dcTcp | _ => none
+
+def showList (xs : List String) : String := if xs.isEmpty then "_" else ",".intercalate xs
+
+def showOpt : Option Opt → String
+  | none => "0 0 0 0 0 0 _"
+  | some o => s!"1 {o.udpSize} {o.extRcode} {o.version} {showB o.dobit} {o.z} " ++
+      showList (o.opts.map fun e => s!"{e.code}:{e.len}")
+
+def mkOpt (present size ext ver dobit z opts : String) : Option Opt :=
+  if bool! present then
+    some { udpSize := nat! size, extRcode := nat! ext, version := nat! ver, dobit := bool! dobit,
+           z := nat! z, opts := parseOpts opts }
+  else none
+
+def step (s : Unit) : List String → Unit × String
+  | ["serve", legacy, t, cfgMax, idle, draw, slack, ro, rsize, rdo, ropts,
+     tc, q, unc, ans, ns, extra, ns2, extra2, po, psize, pext, pver, pdo, pz, popts] =>
+    match parseT t with
+    | none => (s, "bad-op")
+    | some t =>
+      let req := mkOpt ro rsize "0" "0" rdo "0" ropts
+      let r : Resp := { tc := bool! tc, q := nat! q, unc := nat! unc, ans := parseList ans,
+                        ns := parseList ns, extra := parseList extra, ns2 := parseList ns2,
+                        extra2 := parseList extra2, opt := mkOpt po psize pext pver pdo pz popts }
+      let o := serveG (bool! legacy) t (nat! cfgMax) (nat! idle) req r (nat! draw) (nat! slack)
+      (s, s!"{o.cut.ka} {o.cut.kn} {o.cut.ke} {showB o.cut.tc} {showOpt o.opt} {o.len} {o.wire} {showB o.emitted}")
+  | ["maxsize", isUdp, edns, cap] =>
+    (s, toString (maxDNSSize (bool! isUdp) (nat! edns) (nat! cap)))
+  | _ => (s, "bad-op")
+
+def main : IO Unit := loop step ()
+
 end Agd.Driver.C08
